@@ -86,6 +86,8 @@ def match_known(known, prop, failure) -> Optional[Dict[str, Any]]:
                 continue
             if m.get("detail_contains") and m["detail_contains"] not in (failure.get("detail") or ""):
                 continue
+            if m.get("detail_any") and not any(x in (failure.get("detail") or "") for x in m["detail_any"]):
+                continue
             if not shape_matches(m.get("shape", {}), failure.get("shape", {}), case):
                 continue
             found = k
